@@ -1,3 +1,5 @@
+//go:build verif
+
 package main
 
 import (
@@ -20,6 +22,31 @@ import (
 func init() {
 	props["C18"] = runC18
 	cmds[1801] = execHmacHistory
+	poolHolders = poolHoldersImpl
+}
+
+// poolHoldersImpl (C20): sixty-four pooled HMAC states held at the same time (as sixty-four checks in flight hold
+// them), given back, and taken again: the second time the pool serves every one of them
+func poolHoldersImpl(o *out) {
+	for _, algo := range []int{1, 2} {
+		al := algoOf(algo)
+		key := []byte("k")
+		held := make([]hash.Hash, 64)
+		cycle := func() {
+			for k := range held {
+				held[k] = al.acquire(key)
+			}
+			for k := range held {
+				al.put(held[k])
+			}
+		}
+		cycle()
+		cycle()
+		if nal := mallocs(cycle); nal > 8 {
+			o.failFor("C20", "warm-op-allocates", fmt.Sprintf("x 64 pooled HMAC states (algorithm %d) acquired together, returned, acquired again: %d allocation(s) the second time", algo, nal))
+		}
+		o.count("pool-serves-many-holders")
+	}
 }
 
 type hmacAlgo struct {
